@@ -206,7 +206,10 @@ that too. Two of them (`c20-event-gate-check-then-act`, a hand-rolled
 re-entrant gate on a `threading.Event` with a check-then-act window, and
 `c20-semaphore-two-permits`) were added together with the scheduler's
 cooperative `Semaphore`/`BoundedSemaphore`/`Event` (§8.1) and are reported
-(`logs/selftest_event_semaphore.txt`).
+(`logs/selftest_event_semaphore.txt`). After the world generators changed
+in the second session the C09 and C11 parts of the catalogue were run again:
+all 20 mutants reported, unpatched copies clean
+(`logs/selftest_session2_C09.txt`, `logs/selftest_session2_C11.txt`).
 
 | property | mutants |
 |---|---|''' % len(mutants.MUTANTS))
